@@ -60,8 +60,8 @@ func init() { register(c10{}) }
 
 var c10Bodies = []string{"val", "gate-ctx", "gate-ign", "throw", "sleep", "spin", "fail", "deref-other", "nil", "false", "coll", "gate-then-throw", "call-fn", "nested-future", "error-value", "error-value-gate", "try-gate-ctx", "try-sleep", "throw-through-two-futures", "fail-through-two-futures"}
 var c10BodyW = []int{3, 4, 3, 2, 3, 2, 1, 1, 1, 1, 1, 2, 1, 1, 2, 1, 3, 1, 2, 1}
-var c10OpKinds = []string{"deref", "done?", "cancelled?", "cancel", "deref-deadline", "nap"}
-var c10OpW = []int{5, 4, 3, 2, 3, 1}
+var c10OpKinds = []string{"deref", "done?", "cancelled?", "cancel", "deref-deadline", "nap", "print"}
+var c10OpW = []int{5, 4, 3, 2, 3, 1, 1}
 
 func futName(i int) string { return "f" + strconv.Itoa(i) }
 
@@ -457,6 +457,10 @@ func (c10) Run(tp *Tape, opt RunOpt) *RunOut {
 			case "nap":
 				op.Ms = 1 + tp.Draw(LaneWork, 30)
 				op.Kind, op.Src = "nap", "(sleep "+strconv.Itoa(op.Ms)+")"
+			case "print":
+				// printing a future is not one of the operations of the statement; it must not disturb them (a
+				// printer that looks at the outcome must leave it where every later deref finds it)
+				op.Kind, op.Src = "nap", []string{"(do (pr-str "+fn+") nil)", "(do (str "+fn+") nil)", "(do (pr-str [1 "+fn+"]) nil)"}[tp.Draw(LaneWork, 3)]
 			}
 			return op
 		}, n)
